@@ -233,7 +233,14 @@ def rule_fresh(ctx):
                         else:
                             why = 'constructed with flag=true but a replacement list that is not provably empty'
                 elif any(e[0] == 'call' and e[1].endswith('::load') for e in walk(fe)):
-                    verdict = 'ok'  # copied pair: PUBLISH-ORDER decides the order of the two reads
+                    # copied pair: PUBLISH-ORDER decides the order of the two reads; the flag may only be copied together with
+                    # the index it vouches for
+                    ie = b.expr_of_operand(ops[A['sorted_index']])
+                    if any(e[0] == 'field' and e[2] == A['sorted_index'] and e[3] == A['adt'] for e in walk(ie)):
+                        verdict = 'ok'
+                    else:
+                        why = 'the sorted-flag is copied from an existing value but the index is not: a clone of an already sorted ' \
+                              'source keeps flag=true with an index that was never built for it'
                 else:
                     why = 'flag initialiser is neither a constant nor a load of an existing flag (unrecognised idiom)'
                 r.site('%s constructs %s' % (b.path, A['adt']), site, verdict)
